@@ -27,7 +27,7 @@ func c09IsOutNotifErr(err error, code uint8) bool {
 
 func Verif_C09_state_message_table() {
 	verifEngineOnly()
-	verifNote("full (state, message type) table for OpenSent/OpenConfirm/Established x {OPEN, UPDATE, NOTIFICATION, KEEPALIVE}, optionally with a KEEPALIVE pipelined right behind it, followed by EOF; received NOTIFICATION code/subcode symbolic with data length 0..8; UPDATE body symbolic length 0..32; remote hold time >= 3 (hold time 0 sessions are C06); timers do not fire (C06)")
+	verifNote("full (state, message type) table for OpenSent/OpenConfirm/Established x {OPEN, UPDATE, NOTIFICATION, KEEPALIVE}, optionally with a KEEPALIVE pipelined right behind it, followed by EOF; received NOTIFICATION code/subcode symbolic with data length 0..8; UPDATE body symbolic length 0..32; remote hold time 90 or 0 (symbolic choice; with 0 no hold / keep-alive timer exists in the session); timers do not fire (C06)")
 	state := verifChoose("state", 3)
 	typ := uint8(1 + verifChoose("type", 4))
 	cfg := symConfig()
@@ -59,7 +59,12 @@ func Verif_C09_state_message_table() {
 	if state == stOpenSent {
 		f = fsmInOpenSent(p, conn)
 	} else {
-		f = fsmNegotiated(p, conn, 90, remoteID)
+		// the remote proposed hold time 90 or 0 (then no hold / keep-alive timer exists): the table does not depend on it
+		rh := uint16(90)
+		if verifChoose("remote-hold-zero", 2) == 1 {
+			rh = 0
+		}
+		f = fsmNegotiated(p, conn, rh, remoteID)
 	}
 	to, err := c09Run(f, state)
 	verifQuiesce()
